@@ -4,6 +4,7 @@ import (
 	"bytes"
 	"fmt"
 	"go/ast"
+	"go/constant"
 	"go/printer"
 	"go/token"
 	"go/types"
@@ -89,6 +90,7 @@ type lbEngine struct {
 	bytes       bool                                 // C03/R9: track what is known about single bytes of the buffer
 	openerProbe func(call *ssa.Call, cf commentForm) // C14/R4: what is known about the bytes at the cursor where skipComment hands over to a scanner
 	openerRoot  *ssa.Function
+	tableLoops  map[*ssa.BasicBlock]*tableLoop
 	edgeIns     map[*ssa.BasicBlock][]*lstate // openerProbe: the states on the incoming edges of the blocks of openerRoot (a disjunction `a || b` in front of a call is one opener per edge)
 	inlineAlso  map[string]bool               // with shallow: cursor-moving methods that are followed all the same
 	foldEq      bool                          // C16/R3: char.EqualFold returns true only for equal lengths, after the last index
@@ -740,6 +742,7 @@ func (e *lbEngine) run(in *lbInst, entry *lstate) []lbRet {
 			return false
 		}
 		outs := e.execBlock(in, b, st, nil)
+		outs = e.tableLoopExits(in, fn, b, outs)
 		for si, s := range b.Succs {
 			var ns *lstate
 			if si < len(outs) {
@@ -843,6 +846,7 @@ func (e *lbEngine) run(in *lbInst, entry *lstate) []lbRet {
 			}
 		}
 		outs := e.execBlock(in, b, st, &rets)
+		outs = e.tableLoopExits(in, fn, b, outs)
 		if e.scanFns[fn.Name()] && e.record {
 			e.scanObligations(in, fn, b, outs)
 		}
@@ -854,6 +858,257 @@ func (e *lbEngine) run(in *lbInst, entry *lstate) []lbRet {
 }
 
 func edgeKey(s *lstate) string { return s.key() }
+
+// tableLoop: `for _, q := range T { if strings.HasPrefix(hay, q) { <leave the loop> } }` over a constant table T of
+// strings, hay computed before the loop: leaving the loop through its head means that no element of T is a prefix of hay.
+type tableLoop struct {
+	needles []string
+	hay     ssa.Value
+}
+
+func (e *lbEngine) tableLoopOf(fn *ssa.Function, l *natLoop) *tableLoop {
+	if e.tableLoops == nil {
+		e.tableLoops = map[*ssa.BasicBlock]*tableLoop{}
+	}
+	if tl, ok := e.tableLoops[l.header]; ok {
+		return tl
+	}
+	e.tableLoops[l.header] = nil
+	h := l.header
+	// the index: phi [-1, phi+1], tested `phi+1 < n`
+	iff, ok := h.Instrs[len(h.Instrs)-1].(*ssa.If)
+	if !ok {
+		return nil
+	}
+	cmp, ok := iff.Cond.(*ssa.BinOp)
+	if !ok || cmp.Op != token.LSS {
+		return nil
+	}
+	n, ok := constInt(cmp.Y)
+	var lenOf ssa.Value // `phi+1 < len(T)` for a slice
+	if lc, isC := cmp.Y.(*ssa.Call); isC && !ok && isLenCall(lc) {
+		lenOf, ok = lc.Call.Args[0], true
+	}
+	inc, ok2 := cmp.X.(*ssa.BinOp)
+	if !ok || !ok2 || inc.Op != token.ADD {
+		return nil
+	}
+	phi, ok := inc.X.(*ssa.Phi)
+	if k, isK := constInt(inc.Y); !ok || !isK || k != 1 || phi.Block() != h {
+		return nil
+	}
+	for _, ed := range phi.Edges {
+		if k, isK := constInt(ed); isK && k == -1 {
+			continue
+		}
+		if ed != ssa.Value(inc) {
+			return nil
+		}
+	}
+	if !l.body[h.Succs[0]] || l.body[h.Succs[1]] {
+		return nil
+	}
+	// the body: one prefix test of a value from outside the loop against the element, leaving the loop when it holds;
+	// nothing else leaves it, nothing else is called
+	var hp *ssa.Call
+	for b := range l.body {
+		if b == h {
+			continue
+		}
+		for _, in := range b.Instrs {
+			switch x := in.(type) {
+			case *ssa.Call:
+				if bi, isB := x.Call.Value.(*ssa.Builtin); isB && bi.Name() == "len" {
+					continue
+				}
+				c := x.Call.StaticCallee()
+				if c == nil || (c.String() != "strings.HasPrefix" && c.String() != "bytes.HasPrefix") || hp != nil {
+					return nil
+				}
+				hp = x
+			case *ssa.Store, *ssa.Go, *ssa.Defer, *ssa.Send, *ssa.MapUpdate, *ssa.Panic:
+				return nil
+			}
+		}
+	}
+	if hp == nil {
+		return nil
+	}
+	if hi, isI := hp.Call.Args[0].(ssa.Instruction); isI && l.body[hi.Block()] {
+		return nil
+	}
+	for b := range l.body {
+		if b == h {
+			continue
+		}
+		for si, sc := range b.Succs {
+			if l.body[sc] {
+				continue
+			}
+			bi, isIf := b.Instrs[len(b.Instrs)-1].(*ssa.If)
+			if !isIf || bi.Cond != ssa.Value(hp) || si != 0 {
+				return nil
+			}
+		}
+	}
+	// the element: T[phi+1]
+	var table ssa.Value
+	switch x := hp.Call.Args[1].(type) {
+	case *ssa.Index:
+		if x.Index == ssa.Value(inc) {
+			table = x.X
+		}
+	case *ssa.UnOp:
+		if ia, isIA := x.X.(*ssa.IndexAddr); isIA && x.Op == token.MUL && ia.Index == ssa.Value(inc) {
+			table = ia.X
+		}
+	}
+	if table == nil {
+		return nil
+	}
+	strs, ok := e.w.constStringTable(table)
+	if !ok || (lenOf == nil && int64(len(strs)) != n) || (lenOf != nil && lenOf != table) {
+		return nil
+	}
+	tl := &tableLoop{needles: strs, hay: hp.Call.Args[0]}
+	e.tableLoops[l.header] = tl
+	return tl
+}
+
+// constStringTable: the strings of a table that is a package-level array/slice variable (as its package initialiser
+// leaves it; C18/R1: nothing writes it later), a local copy of one, or a local literal of constants.
+func (w *World) constStringTable(v ssa.Value) ([]string, bool) {
+	fromCval := func(c cval) ([]string, bool) {
+		var els []cval
+		switch c.kind {
+		case cArr:
+			els = c.arr.e
+		case cSlice:
+			els = c.arr.e[c.lo:c.hi]
+		default:
+			return nil, false
+		}
+		var out []string
+		for _, el := range els {
+			if el.kind != cConst || el.c.Kind() != constant.String {
+				return nil, false
+			}
+			out = append(out, constant.StringVal(el.c))
+		}
+		return out, len(out) > 0
+	}
+	for i := 0; i < 4; i++ {
+		switch x := v.(type) {
+		case *ssa.UnOp:
+			if x.Op != token.MUL {
+				return nil, false
+			}
+			if g, ok := x.X.(*ssa.Global); ok {
+				if g.Pkg == nil {
+					return nil, false
+				}
+				init, _ := w.pkgInit(g.Pkg.Pkg.Path())
+				if init == nil {
+					return nil, false
+				}
+				cell, ok := init.globals[g]
+				if !ok {
+					return nil, false
+				}
+				return fromCval(cell.v)
+			}
+			v = x.X
+			continue
+		case *ssa.Slice:
+			if x.Low != nil || x.High != nil {
+				return nil, false
+			}
+			v = x.X
+			continue
+		case *ssa.Alloc:
+			at, ok := x.Type().(*types.Pointer).Elem().Underlying().(*types.Array)
+			if !ok {
+				return nil, false
+			}
+			out := make([]string, at.Len())
+			set := make([]bool, at.Len())
+			for _, u := range referrers(x) {
+				switch y := u.(type) {
+				case *ssa.IndexAddr:
+					k, ok := constInt(y.Index)
+					if !ok || k < 0 || k >= at.Len() {
+						// an index by a variable: a read of the table (the loop), as long as nothing is stored through it
+						for _, uu := range referrers(y) {
+							if st, isS := uu.(*ssa.Store); isS && st.Addr == ssa.Value(y) {
+								return nil, false
+							}
+						}
+						continue
+					}
+					for _, uu := range referrers(y) {
+						if st, isS := uu.(*ssa.Store); isS && st.Addr == ssa.Value(y) {
+							sv, ok := constString(st.Val)
+							if !ok || set[k] {
+								return nil, false
+							}
+							out[k], set[k] = sv, true
+						}
+					}
+				case *ssa.Store:
+					// a copy of a package-level array
+					if y.Addr == ssa.Value(x) {
+						return w.constStringTable(y.Val)
+					}
+				case *ssa.Slice, *ssa.UnOp, *ssa.DebugRef:
+				default:
+					return nil, false
+				}
+			}
+			for _, ok := range set {
+				if !ok {
+					return nil, false
+				}
+			}
+			return out, true
+		}
+		return nil, false
+	}
+	return nil, false
+}
+
+// tableLoopExits: on the edge that leaves a table loop through its head, the bytes the one-byte elements of the table
+// begin with are excluded for the first byte of the text tested (when that text is known not to be empty).
+func (e *lbEngine) tableLoopExits(in *lbInst, fn *ssa.Function, b *ssa.BasicBlock, outs []*lstate) []*lstate {
+	if !e.bytes || len(outs) != 2 {
+		return outs
+	}
+	for _, l := range e.loopsOf(fn) {
+		if l.header != b {
+			continue
+		}
+		tl := e.tableLoopOf(fn, l)
+		if tl == nil || outs[1] == nil {
+			return outs
+		}
+		lo, hi, isBuf := e.bufSlice(in, tl.hay)
+		st := outs[1]
+		if !isBuf || !st.proves(e.at, lfact{l: hi.sub(lo).add(linConst(-1))}) {
+			return outs
+		}
+		set, _ := e.byteSetAt(st, lo)
+		for _, nd := range tl.needles {
+			if len(nd) == 1 {
+				set.del(nd[0])
+			}
+		}
+		res := []*lstate{outs[0], nil}
+		if !set.empty() {
+			res[1] = st.withByte(lo, set)
+		}
+		return res
+	}
+	return outs
+}
 
 func rpo(fn *ssa.Function) []*ssa.BasicBlock {
 	seen := map[*ssa.BasicBlock]bool{}
